@@ -733,6 +733,9 @@ func (e *c14Engine) send(q c14Req) c15Resp {
 	abs := w.abstract(q)
 	kind := abs["route"].(J)["k"].(string)
 	before := e.raw
+	if kind == "model" && q.Method == "PATCH" {
+		e.registerIntermediateSets(q.Body)
+	}
 	r := c14Do(e.mux, q)
 	w.stats["requests"]++
 	w.stats["route:"+kind+":"+c14Meth(q.Method)]++
@@ -802,6 +805,34 @@ func (e *c14Engine) send(q c14Req) c15Resp {
 		w.oracleLine("served-valuation-differs-from-fresh-instance", q, r, abs, "GET /model serves decision variables that a fresh model in the served action set does not have")
 	}
 	return r
+}
+
+// registerIntermediateSets: a PATCH with several Encoding entries passes through action sets that are never served;
+// their validity (which decides where ValidationErrors ends up in the attribute list) must be in the descriptor too.
+func (e *c14Engine) registerIntermediateSets(body string) {
+	d := e.currentDesc()
+	if d == nil {
+		return
+	}
+	attrs := attributes.Attributes{}
+	if json.Unmarshal([]byte(body), &attrs) != nil {
+		return
+	}
+	for _, a := range attrs {
+		enc, isText := a.Value.(string)
+		if a.Name != "Encoding" || !isText {
+			continue
+		}
+		arch := archive.New(len(d.actions))
+		if arch.Decode(enc) != nil {
+			continue
+		}
+		bits := make([]bool, len(d.actions))
+		for i := range bits {
+			bits[i] = arch.Value(i)
+		}
+		d.freshEval(bits)
+	}
 }
 
 func c14HiddenChange(hist []c14Req, failed c14Req) string {
